@@ -262,11 +262,40 @@ def rule_twin(chk):
         chk.decide(listed == set(pyk), 'compiled-twin', 'template-class-list', file=CKT, func='CLASSES', line=0,
                    detail_bad='generator template lists %s, kernels.py defines %s' % (sorted(listed), sorted(pyk)), detail_ok='%d classes' % len(listed))
     gk = M.find_func(py, 'get_compiled_kernel')
-    from verif_static import norm as N_
-    rets_ = [r_ for r_ in ast.walk(gk) if isinstance(r_, ast.Return) and r_.value is not None]
-    ok = len(rets_) == 1 and compact(N_.inline(rets_[0].value, N_.local_defs(gk.body))) == "getattr(c_kernels,kernel.__class__.__name__+'Wrapper')(getattr(c_kernels,kernel.__class__.__name__)(**kernel.__dict__))"
+    # decided by a model run: for a model kernel of class Foo with attributes {dim, fac, radius_scale} the function hands back c_kernels.FooWrapper(c_kernels.Foo(dim=.., fac=.., radius_scale=..))
+    from verif_static import emit as EM, absint as AI
+    ok = False
+    why = ''
+    try:
+        it = EM.interpreter()
+
+        def hook(interp, v, attr, node, env):
+            if AI.unknown(v) and AI.key_of(v).split('.')[-1] == 'c_kernels':
+                return lambda i, a, k, n, e, attr=attr: ('made', attr, list(a), dict(k))
+            return NotImplemented
+        AI.ATTR_HOOKS.insert(0, hook)
+        saved_g = AI.BUILTINS.get('getattr')
+
+        def getattr_(interp, args, kwargs, node, env):
+            if AI.unknown(args[0]) and AI.key_of(args[0]).split('.')[-1] == 'c_kernels' and isinstance(args[1], str):
+                return lambda i, a, k, n, e, attr=args[1]: ('made', attr, list(a), dict(k))
+            return saved_g(interp, args, kwargs, node, env)
+        AI.BUILTINS['getattr'] = getattr_
+        try:
+            attrs = {'dim': 2, 'fac': 1.5, 'radius_scale': 3.0}
+            kern = EM.mock(name='Foo', __dict__=dict(attrs), **attrs)
+            got = EM.call_function(it, KER, 'get_compiled_kernel', kern)
+        finally:
+            AI.ATTR_HOOKS.remove(hook)
+            AI.BUILTINS['getattr'] = saved_g
+        ok = isinstance(got, tuple) and got[:2] == ('made', 'FooWrapper') and len(got[2]) == 1 and not got[3] and isinstance(got[2][0], tuple) and got[2][0][:2] == ('made', 'Foo') \
+            and not got[2][0][2] and got[2][0][3] == attrs
+        why = repr(got)[:200]
+    except (AI.Unsupported, AI.Raised) as e:
+        why = 'not interpretable on the model: %s' % e
     chk.decide(ok, 'compiled-twin', 'get_compiled_kernel', node=gk, file=KER, func='get_compiled_kernel',
-               detail_bad='compiled kernel is not <Name>(**kernel.__dict__) wrapped by <Name>Wrapper', detail_ok='Name(**__dict__) in NameWrapper')
+               detail_bad='for a model kernel Foo(dim=2, fac=1.5, radius_scale=3.0) the function returns %s; expected c_kernels.FooWrapper(c_kernels.Foo(**the attributes of the kernel))' % why
+               if True else '', detail_ok='Name(**__dict__) in NameWrapper')
     return pyk
 
 
